@@ -19,22 +19,23 @@ var _ = blncfg.Config{}
 
 // genOpts steer the workload/config generators per property.
 type genOpts struct {
-	Policy      string
-	MaxOps      int
-	MinOps      int
-	Reconfig    bool // generate reconfigurations
-	FillPools   bool // many sub-core / burstable containers with large fractions
-	OptOuts     bool // 20-50% of containers carry an opt-out
-	MemPressure bool // memory limits that overflow nodes
-	FailingReqs bool // requests that are expected to fail
-	ColdStart   bool
-	NoUpdates   bool
-	UpdateHeavy bool // a third of the requests are UpdateContainer, many returning to earlier resources
-	ExclHeavy   bool // many Guaranteed whole-CPU containers in ordinary namespaces
-	PinAlways   bool // pinCPU/pinMemory always on
-	NoHideHT    bool
-	Anns        []annGen // annotation vocabulary (nil = topology-aware set)
-	Topo        vfkit.TopoOpts
+	Policy           string
+	MaxOps           int
+	MinOps           int
+	Reconfig         bool // generate reconfigurations
+	FillPools        bool // many sub-core / burstable containers with large fractions
+	OptOuts          bool // 20-50% of containers carry an opt-out
+	MemPressure      bool // memory limits that overflow nodes
+	FailingReqs      bool // requests that are expected to fail
+	ColdStart        bool
+	NoUpdates        bool
+	WantIsolatedCtrs bool // most pods prefer kernel-isolated CPUs
+	UpdateHeavy      bool // a third of the requests are UpdateContainer, many returning to earlier resources
+	ExclHeavy        bool // many Guaranteed whole-CPU containers in ordinary namespaces
+	PinAlways        bool // pinCPU/pinMemory always on
+	NoHideHT         bool
+	Anns             []annGen // annotation vocabulary (nil = topology-aware set)
+	Topo             vfkit.TopoOpts
 }
 
 func ptr[T any](v T) *T { return &v }
@@ -159,6 +160,10 @@ func genPod(t *rapid.T, o genOpts, ctrNames []string) *hcPodSpec {
 		form := rapid.SampledFrom([]string{"bare", "pod", "container"}).Draw(t, "annForm")
 		ctr := rapid.SampledFrom(ctrNames).Draw(t, "annCtr")
 		p.Annotations[annKey(a.key, form, ctr)] = rapid.SampledFrom(a.values).Draw(t, "annValue")
+	}
+	if o.WantIsolatedCtrs && rapid.IntRange(0, 2).Draw(t, "wantIsolated") != 0 {
+		p.Annotations[annKey("prefer-isolated-cpus", rapid.SampledFrom([]string{"bare", "pod"}).Draw(t, "isoForm"), "")] = "true"
+		p.QoS = "guaranteed"
 	}
 	if o.OptOuts && rapid.IntRange(0, 2).Draw(t, "optout") == 0 {
 		form := rapid.SampledFrom([]string{"bare", "pod", "container"}).Draw(t, "ooForm")
@@ -309,6 +314,15 @@ func genOps(t *rapid.T, o genOpts, topo *vfkit.Topo, genCfg func(t *rapid.T) *vh
 		case "reconfig":
 			op.Cfg = genCfg(t)
 		}
+		if k == "update" && rapid.IntRange(0, 4).Draw(t, "refusedThenStopped") == 0 {
+			// an update the policy has to refuse (more CPUs than the machine has), then the
+			// same container is stopped: the next reply-carrying request addresses a container
+			// that itself has undelivered changes
+			big := int64(topo.OnlineCPUs().Size()+2) * 1000
+			op.B, op.Ctr = 0, &hcCtrSpec{Name: "x", MilliCPU: big, LimitCPU: big}
+			ops = append(ops, op, hcOp{Kind: "stop", A: op.A})
+			continue
+		}
 		ops = append(ops, op)
 	}
 	return ops
@@ -328,8 +342,19 @@ func genTACase(t *rapid.T, o genOpts) *hcCase {
 	cfg := &vhConfig{TA: genTAConfig(t, topo, o)}
 	c := &hcCase{Policy: polTA, Topo: topo, Config: cfg}
 	c.Ops = genOps(t, o, topo, func(t *rapid.T) *vhConfig {
-		if rapid.IntRange(0, 3).Draw(t, "sameCfg") == 0 {
+		switch rapid.IntRange(0, 5).Draw(t, "sameCfg") {
+		case 0:
 			return cfg.clone()
+		case 1:
+			// valid in itself but too small for a machine full of containers: rejected late,
+			// after the policy has started to move existing allocations
+			small := cfg.clone()
+			on := topo.OnlineCPUs().Minus(topo.IsolatedCPUs()).Sorted()
+			if len(on) >= 2 {
+				small.TA.AvailableResources = polcfg.Constraints{polcfg.CPU: polcfg.Amount(fmt.Sprintf("cpuset:%d-%d", on[0], on[1]))}
+				small.TA.ReservedResources = polcfg.Constraints{polcfg.CPU: polcfg.Amount(fmt.Sprintf("cpuset:%d", on[0]))}
+			}
+			return small
 		}
 		return &vhConfig{TA: genTAConfig(t, topo, o)}
 	})
